@@ -976,6 +976,22 @@ class Interp:
         return self.prim_binop(name, a, b)
 
     def prim_binop(self, name, a, b):
+        from . import extern as _ex
+        # '0' * n and concatenation of binary-digit strings (exp-Golomb encoders)
+        if name == 'mul' and isinstance(a, str) and a in ('0', '1') and isinstance(b, SInt):
+            bit = (a == '1')
+            n = sym.smax(b, 0)
+            return _ex.SStr('bin', _ex.BA(n, lambda i: bit))
+        if name == 'add' and isinstance(a, _ex.SStr) and a.kind == 'bin' and isinstance(b, (str, _ex.SStr)):
+            if isinstance(b, str):
+                if not set(b) <= {'0', '1'}:
+                    raise Unsupported("concatenating a digit string with a non-binary string")
+                vb = _ex.BA.concrete([ch == '1' for ch in b])
+            else:
+                vb = b.view
+            va = a.view
+            fa, na, fb = va.bit, va.n, vb.bit
+            return _ex.SStr('bin', _ex.BA(na + vb.n, lambda i: _ex._sel2(i < na, fa, i, fb, i - na)))
         symbolic = is_sym(a) or is_sym(b)
         if symbolic:
             if not (sym.is_intlike(a) and sym.is_intlike(b)):
